@@ -80,6 +80,13 @@ tryrun:
 				// avoid getting starved here if
 				// instances of a specific type always
 				// fail.
+				//
+				// Meanwhile, don't let a
+				// lower-priority container that needs
+				// the same instance type start ahead
+				// of this one on a worker that is
+				// already idle.
+				dontstart[it] = true
 				continue
 			}
 
